@@ -144,3 +144,47 @@ Definition exit_delay_wiring_ok : bool :=
   end &&
   (port_chunk_passes =? "&copy of parameter *packetScanConfig") &&
   strs_eqb port_chunk_assigns [".scanRange.Ports"].
+
+(* ---------------------------------------------------------------- receive latency (Gen/RecvLatency.v) *)
+From SX Require Import Gen.RecvLatency.
+
+Fixpoint opt_value (name : string) (l : list (string * Z)) : option Z :=
+  match l with
+  | [] => None
+  | (n, v) :: r => if n =? name then Some v else opt_value name r
+  end.
+
+Fixpoint count_opt (name : string) (l : list (string * Z)) : nat :=
+  match l with
+  | [] => O
+  | (n, _) :: r => if n =? name then S (count_opt name r) else count_opt name r
+  end.
+
+(* TPACKET_V3 hands a block of received frames to user space when the block is full or when the
+   block timeout expires; on a filtered scan socket blocks do not fill, so the block timeout is the
+   time a reply can sit in the kernel before ReadPacketData sees it: the value passed to
+   afp.NewTPacket, else gopacket's default *)
+Definition block_timeout_ns : Z :=
+  match opt_value "afp.OptBlockTimeout" tpacket_opts with
+  | Some v => v
+  | None => gopacket_default_block_timeout_ns
+  end.
+
+(* the margin the end-to-end stage of the check tests: replies put on the wire 110..150 ms before
+   the exit delay runs out must be reported; the hand-over latency must stay below 100 ms *)
+Definition recv_latency_bound_ns : Z := 100000000.
+
+Definition known_tpacket_opt (o : string * Z) : bool :=
+  str_in (fst o) ["afp.SocketRaw"; "afp.OptInterface"; "afp.OptPollTimeout"; "afp.OptBlockTimeout"].
+
+Definition recv_latency_ok : bool :=
+  Nat.eqb tpacket_new_calls 1 && forallb known_tpacket_opt tpacket_opts &&
+  Nat.eqb (count_opt "afp.SocketRaw" tpacket_opts) 1 && Nat.eqb (count_opt "afp.OptInterface" tpacket_opts) 1 &&
+  Nat.leb (count_opt "afp.OptBlockTimeout" tpacket_opts) 1 && Nat.eqb (count_opt "afp.OptPollTimeout" tpacket_opts) 1 &&
+  (* reads return at least every 100 ms so that cancellation is noticed (bounded exit) *)
+  match opt_value "afp.OptPollTimeout" tpacket_opts with
+  | Some v => (0 <? v)%Z && (v <=? 100000000)%Z
+  | None => false
+  end &&
+  gopacket_defaults_found && (gopacket_default_block_timeout_ns =? 64000000)%Z &&
+  (0 <? block_timeout_ns)%Z && (block_timeout_ns <? recv_latency_bound_ns)%Z.
